@@ -147,6 +147,7 @@ const (
 	dImportVar
 	dImportFunc
 	dLink
+	dCounter
 	nDepKinds
 )
 
@@ -166,8 +167,9 @@ type pkgB struct {
 	nvars   int
 	varFile []int // file index of var i
 	varRank []int
-	hseq    int
-	hasLink bool
+	hseq       int
+	hasLink    bool
+	hasCounter bool
 }
 
 // CrossDep is an initialiser dependency between two variables of one package that are
@@ -370,6 +372,17 @@ func (g *gen) genDep(p *pkgB, v int, from *fileB) string {
 	if k == dLink {
 		return "" // added by genLinks
 	}
+	if k == dCounter {
+		// variables declared without an initialiser hold their zero value before any
+		// initialiser runs; initialisers write them through these functions
+		g.prog.Kinds["zero-valued"]++
+		if !p.hasCounter {
+			p.hasCounter = true
+			_, cf := g.pickFile(p)
+			cf.add(g, "var counter int\n\nvar table [3]int\n\nvar names []string\n\nfunc bump(tag string) int {\n\tcounter++\n\ttable[counter%3] += counter\n\tnames = append(names, tag)\n\treturn counter*100 + table[counter%3] + len(names)\n}")
+		}
+		return fmt.Sprintf("bump(%q)", p.varName(v))
+	}
 	if k == dImportVar || k == dImportFunc {
 		if len(p.imports) == 0 {
 			return ""
@@ -560,6 +573,9 @@ func (g *gen) genInits(p *pkgB) {
 			if g.chance("inityield", 35) {
 				g.prog.Suspends++
 				body.WriteString("\ttr.Yield()\n")
+			}
+			if p.hasCounter {
+				sum = "tr.Mix(" + sum + ", counter, table[0], table[1], table[2], len(names))"
 			}
 			fmt.Fprintf(&body, "\ttr.Log(%q, \"init %s#%d sees \" + tr.Itoa(%s))\n", p.tag(), f.name, f.inits, sum)
 			switch g.intn("initextra", 0, 9) {
